@@ -20,6 +20,23 @@ Definition dec_entry (s : sx) : option entry :=
 
 Definition rmode_of (n : N) : rmode := if N.eqb n 0 then Fresh else Merge.
 
+(* ---- the receiver's Filter, selectable by code (mirrors harness/c05.go c05Filter):
+        0 none; 1 umask 022; 2 ownership reset to 7:8; 3 umask 027 + mtime truncated to seconds ---- *)
+Definition set_owner (s : stat) (u g : N) : stat :=
+  {| st_path := st_path s; st_mode := st_mode s; st_uid := u; st_gid := g; st_size := st_size s;
+     st_mtime := st_mtime s; st_linkname := st_linkname s; st_devmajor := st_devmajor s;
+     st_devminor := st_devminor s; st_xattrs := st_xattrs s |}.
+Definition set_mtime (s : stat) (t : N) : stat :=
+  {| st_path := st_path s; st_mode := st_mode s; st_uid := st_uid s; st_gid := st_gid s; st_size := st_size s;
+     st_mtime := t; st_linkname := st_linkname s; st_devmajor := st_devmajor s;
+     st_devminor := st_devminor s; st_xattrs := st_xattrs s |}.
+Definition wf_of (code : N) (p : bytes) (s : stat) : bool * stat :=
+  if N.eqb code 1 then (true, set_mode s (N.ldiff (st_mode s) 18))
+  else if N.eqb code 2 then (true, set_owner s 7 8)
+  else if N.eqb code 3 then
+    (true, set_mtime (set_mode s (N.ldiff (st_mode s) 23)) (st_mtime s - N.modulo (st_mtime s) 1000000000))
+  else (true, s).
+
 (* ---- canonical form of a destination entry:
         (path mode uid gid mtime(non-dir) target(symlink) devmajor devminor(device) content(regular)
          inode-class kept) ---- *)
@@ -76,27 +93,31 @@ Definition notif_kind (n : notif) : ckind := fst (fst n).
 
 (* a decoded case *)
 Record rcase := {
-  rc_differ : differ; rc_mode : rmode;
+  rc_differ : differ; rc_mode : rmode; rc_filter : N;
   rc_A : list entry;            (* destination: stats as the real walker listed them + contents *)
   rc_B : list entry;
   rc_reqs : list bytes; rc_notifs : list notif; rc_final : list sx; rc_err : bool }.
 
 Definition dec_rcase (input impl : sx) : option rcase :=
   match input, impl with
-  | SL [SN dc; SN mc; SN _; a; b], SL [w; SL rq; SL nt; SL fin; er] =>
+  | SL (SN dc :: SN mc :: SN _ :: a :: b :: rest), SL [w; SL rq; SL nt; SL fin; er] =>
+    fc <- match rest with [] => Some 0 | [SN c] => Some c | _ => None end ;;
     A0 <- sx_list dec_entry a ;;
     B <- sx_list dec_entry b ;;
     W <- sx_list dec_stat w ;;
     rqs <- omap sx_B rq ;;
     nts <- omap dec_notif nt ;;
     e <- sx_bool er ;;
-    Some {| rc_differ := differ_of dc; rc_mode := rmode_of mc;
+    Some {| rc_differ := differ_of dc; rc_mode := rmode_of mc; rc_filter := fc;
             rc_A := map (fun s => (s, src_of A0 (st_path s))) W; rc_B := B;
             rc_reqs := rqs; rc_notifs := nts; rc_final := fin; rc_err := e |}
   | _, _ => None
   end.
 
-Definition model_state (c : rcase) : dstate := receive_abs Hid hdr (rc_mode c) (rc_differ c) (rc_A c) (rc_B c).
+Definition rc_wf (c : rcase) := wf_of (rc_filter c).
+Definition rc_F (c : rcase) : stat -> stat := filter_stat (rc_wf c).
+Definition model_state (c : rcase) : dstate :=
+  receive_abs_f (rc_wf c) Hid hdr (rc_mode c) (rc_differ c) (rc_A c) (rc_B c).
 
 Definition model_obs (c : rcase) : sx :=
   let r := model_state c in
@@ -133,14 +154,22 @@ Fixpoint sx_list_eqb (a b : list sx) : bool :=
    destination (model_obs). *)
 Definition canon_eqb (a b : stat) : bool := sx_list_eqb (canon_fields a) (canon_fields b).
 Definition case_honest (c : rcase) : bool :=
-  recv_honest_by canon_eqb (rc_mode c) (rc_differ c) (rc_A c) (rc_B c).
+  recv_honest_f_by canon_eqb (rc_wf c) (rc_mode c) (rc_differ c) (rc_A c) (rc_B c).
+
+(* announced (added / modified) in this transfer: the disk holds the FILTERED stat there; an
+   entry that was not touched keeps what it had *)
+Definition touched (c : rcase) (p : bytes) : bool :=
+  existsb (fun n => bytes_eqb (notif_path n) p && negb (ckind_eqb (notif_kind n) KDelete)) (rc_notifs c).
 
 Definition replay_ok (c : rcase) : bool :=
   let M := replay (rc_notifs c) (nview Hid hdr (dest_of (rc_A c))) in
   forallb (fun f =>
              match alookup (final_path f) M with
              | Some (st, dg) =>
-               sx_list_eqb (canon_fields (set_path st (final_path f))) (final_fields f)
+               (* the consumer knows its own filter: the disk holds the filtered stat, the digest is
+                  that of the header AS SENT followed by the stored bytes *)
+               sx_list_eqb (canon_fields (set_path (if touched c (final_path f) then rc_F c st else st) (final_path f)))
+                           (final_fields f)
                && bytes_eqb dg (digest Hid hdr st (final_content f))
              | None => false
              end) (rc_final c)
@@ -149,18 +178,20 @@ Definition replay_ok (c : rcase) : bool :=
 
 (* ---- C05 oracle, part (b): the notifications are exactly the changes the specification asks
         for (a regular file whose content is transferred is announced as ADD), no path twice ---- *)
-Definition notif_justified (d : differ) (LA LB : list stat) (n : notif) : bool :=
+Definition notif_justified (F : stat -> stat) (d : differ) (LA LB : list stat) (n : notif) : bool :=
   match n with
-  | (KDelete, p, None) => spec_change_b (fun s => s) d LA LB (KDelete, p, None)
+  | (KDelete, p, None) => spec_change_b F d LA LB (KDelete, p, None)
   | (k, p, Some (st, _)) =>
-    spec_change_b (fun s => s) d LA LB (k, p, Some st) && (negb (wants_content st) || ckind_eqb k KAdd)
-    || (ckind_eqb k KAdd && wants_content st && spec_change_b (fun s => s) d LA LB (KModify, p, Some st))
+    spec_change_b F d LA LB (k, p, Some st) && (negb (wants_content st) || ckind_eqb k KAdd)
+    || (ckind_eqb k KAdd && wants_content st && spec_change_b F d LA LB (KModify, p, Some st))
   | _ => false
   end.
 
-Definition notify_exact_b (d : differ) (LA LB : list stat) (ns : list notif) : bool :=
-  forallb (notif_justified d LA LB) ns
-  && complete_b (fun s => s) d LA LB
+(* the notifications are the images, with the stat AS SENT, of the changes of the specification
+   for the differ with the receiver's filter F (C05 notify_exact / notify_exact_filtered) *)
+Definition notify_exact_b (F : stat -> stat) (d : differ) (LA LB : list stat) (ns : list notif) : bool :=
+  forallb (notif_justified F d LA LB) ns
+  && complete_b F d LA LB
        (map (fun n => match n with
                       | (k, p, Some (st, _)) =>
                         ((if ckind_eqb k KAdd && wants_content st
@@ -177,7 +208,7 @@ Definition c05_spec (c : rcase) : bool :=
   rc_err c
   || ((negb (case_honest c) || replay_ok c)
       && match rc_mode c with
-         | Fresh => negb (case_wf c) || notify_exact_b (rc_differ c) (map fst (rc_A c)) (map fst (rc_B c)) (rc_notifs c)
+         | Fresh => negb (case_wf c) || notify_exact_b (rc_F c) (rc_differ c) (map fst (rc_A c)) (map fst (rc_B c)) (rc_notifs c)
          | Merge => true
          end).
 
@@ -265,3 +296,98 @@ Definition c02_resync_spec (c : rscase) : bool :=
   || (negb (rs_err2 c)
       && match rs_reqs2 c with [] => true | _ => false end
       && match rs_notifs2 c with [] => true | _ => false end).
+
+(* ---- kind 0205 (C02): a history of three synchronisations through the real Send/Receive, the
+        source states S1, S2, S2 materialised on disk and listed by the REAL source walk, the
+        destination (starting as A) listed by the walk Receive sets up.
+        input (A S1 S2); impl: per synchronisation (failed reqIDs ((kind path)...) snapshot-rows).
+        Model: the chain of receive_abs over the states AS GIVEN (= as materialised): requests
+        and notified (kind, path) of every step.
+        Specification on the implementation's output, when the hypotheses of the theorems hold
+        for every step: after each synchronisation the independent snapshot shows exactly the
+        source state as materialised — every changed identity was re-transferred, every removed
+        path removed (untouched_keep_inode / rewritten_get_new_inode / notify_replays'
+        view_equiv, evaluated against the ground truth) — and the third synchronisation, of an
+        unchanged source, requests nothing and notifies nothing (resync_after_transfer_noop). ---- *)
+Definition row_of_entry (e : entry) : sx :=
+  SL (canon_fields (fst e) ++ [SB (if is_reg (fst e) && mode_is_regular (st_mode (fst e)) then snd e else [])]).
+
+Fixpoint rows_eqb (a b : list sx) : bool :=
+  match a, b with
+  | [], [] => true
+  | x :: a', y :: b' => sx_eqb x y && rows_eqb a' b'
+  | _, _ => false
+  end.
+
+Record hstep := { hs_failed : bool; hs_reqs : list N; hs_notifs : list (N * bytes); hs_rows : list sx }.
+
+Definition dec_kp (s : sx) : option (N * bytes) :=
+  match s with SL [SN k; SB p] => Some (k, p) | _ => None end.
+Definition dec_hstep (s : sx) : option hstep :=
+  match s with
+  | SL [f; SL rq; SL nt; SL rows] =>
+    fb <- sx_bool f ;; rqs <- omap sx_N rq ;; nts <- omap dec_kp nt ;;
+    Some {| hs_failed := fb; hs_reqs := rqs; hs_notifs := nts; hs_rows := rows |}
+  | _ => None
+  end.
+
+Record hcase := { hc_A : list entry; hc_S1 : list entry; hc_S2 : list entry; hc_steps : list hstep }.
+Definition dec_hcase (input impl : sx) : option hcase :=
+  match input, impl with
+  | SL [a; s1; s2], SL steps =>
+    A <- sx_list dec_entry a ;; S1 <- sx_list dec_entry s1 ;; S2 <- sx_list dec_entry s2 ;;
+    st <- omap dec_hstep steps ;;
+    Some {| hc_A := A; hc_S1 := S1; hc_S2 := S2; hc_steps := st |}
+  | _, _ => None
+  end.
+
+(* one step of the model chain: result + the destination listed again *)
+Definition h_step (A S : list entry) : dstate * list entry :=
+  let r := receive_abs Hid hdr Fresh DMetadata A S in (r, dest_listing S (ds_map r)).
+
+Definition kp_path (x : N * bytes) : bytes := snd x.
+Definition enc_kp (x : N * bytes) : sx := SL [SN (fst x); SB (snd x)].
+Definition step_obs (failed : bool) (reqs : list bytes) (nts : list (N * bytes)) : sx :=
+  if failed then SL [SN 1]
+  else SL [SN 0; SL (map SB (sort_by (fun p => p) reqs)); SL (map enc_kp (sort_by kp_path nts))].
+
+Definition h_model (c : hcase) : sx :=
+  let '(r1, A1) := h_step (hc_A c) (hc_S1 c) in
+  let o1 := step_obs (ds_err r1) (ds_reqs r1) (map (fun n => (kind_code (notif_kind n), notif_path n)) (ds_notifs r1)) in
+  if ds_err r1 then SL [o1]
+  else
+    let '(r2, A2) := h_step A1 (hc_S2 c) in
+    let o2 := step_obs (ds_err r2) (ds_reqs r2) (map (fun n => (kind_code (notif_kind n), notif_path n)) (ds_notifs r2)) in
+    if ds_err r2 then SL [o1; o2]
+    else
+      let '(r3, _) := h_step A2 (hc_S2 c) in
+      SL [o1; o2; step_obs (ds_err r3) (ds_reqs r3) (map (fun n => (kind_code (notif_kind n), notif_path n)) (ds_notifs r3))].
+
+(* a REQ id is the index of the STAT in the sender's stream = index in the source listing *)
+Definition req_paths (S : list entry) (ids : list N) : list bytes :=
+  map (fun i => match nth_error S (N.to_nat i) with Some e => st_path (fst e) | None => [] end) ids.
+
+Definition h_impl (c : hcase) : sx :=
+  SL (map (fun xs => step_obs (hs_failed (fst xs)) (req_paths (snd xs) (hs_reqs (fst xs))) (hs_notifs (fst xs)))
+          (combine (hc_steps c) [hc_S1 c; hc_S2 c; hc_S2 c])).
+
+Definition h_listing_ok (E : list entry) : bool :=
+  listing_ok_b (map fst E) && links_ok_b E && links_meta_b E && symlink_modes_ok E.
+
+Definition h_hyps (c : hcase) : bool :=
+  h_listing_ok (hc_A c) && h_listing_ok (hc_S1 c) && h_listing_ok (hc_S2 c)
+  && identity_faithful_b DMetadata (hc_A c) (hc_S1 c) && identity_faithful_b DMetadata (hc_S1 c) (hc_S2 c).
+
+Definition shows (S : list entry) (st : hstep) : bool := rows_eqb (map row_of_entry S) (hs_rows st).
+
+Definition c02_history_spec (c : hcase) : bool :=
+  negb (h_hyps c)
+  || match hc_steps c with
+     | [s1; s2; s3] =>
+       negb (hs_failed s1) && shows (hc_S1 c) s1
+       && negb (hs_failed s2) && shows (hc_S2 c) s2
+       && negb (hs_failed s3) && shows (hc_S2 c) s3
+       && match hs_reqs s3 with [] => true | _ => false end
+       && match hs_notifs s3 with [] => true | _ => false end
+     | _ => false
+     end.
